@@ -201,7 +201,7 @@ def gen_taxonomy(rng, w, nt=None, conflict_bias=False, names='hostile', cr_names
 		parent = None if (i == 0 or rng.random() < 0.12) else w.taxa[rng.randrange(i)]
 		nm = f'Taxon {i}' if names == 'plain' or rng.random() < 0.4 else (f'{rng.choice(pool)} {i}' if rng.random() < 0.9 else rng.choice(EXACT))
 		w.taxa.append(TX.T(i, parent, None, rng.random() < 0.8, nm))
-		w.tinfo.append(dict(key=f'verif/{w.tag}/t{i}', rank=rng.choice(RANKS), ncbi_id=rng.choice([None, 1000 + i]), description=rng.choice([None, 'desc'])))
+		w.tinfo.append(dict(key=f'verif/{w.tag}/t{i}', rank=rng.choice(RANKS), ncbi_id=rng.choice([None, 1000 + i, 1000 + i, 2 ** 31 + i, 2 ** 53 + 1 + i, 0]), description=rng.choice([None, 'desc', ''])))
 	if conflict_bias and nt >= 4:
 		w.taxa[0].parent = None
 		w.taxa[1].parent, w.taxa[2].parent, w.taxa[3].parent = w.taxa[0], w.taxa[1], w.taxa[0]
@@ -219,6 +219,12 @@ def assign_thresholds(rng, w):
 		elif c < 0.8:
 			a = rng.choice(ds)
 			t.thr = _f32(np.nextafter(np.float32(a), np.float32(rng.choice([0, 2]))))   # one ulp beside an occurring distance
+		elif c < 0.9:
+			# the decimal a curator would type for an occurring distance (0.2 for 0.20000000298...): a double that is usually NOT a
+			# float32 value, a hair below or above the single-precision distance it is compared with
+			t.thr = round(rng.choice(ds), rng.choice([1, 2, 3, 6]))
+		elif c < 0.94:
+			t.thr = rng.choice([1e-05, 1.5e-07, 0.30000000000000004, 1e-300, 2.5, 1e+16])     # values that print in exponent notation or with 17 digits
 		else:
 			t.thr = _f32(rng.random())
 	w._dist_cache = dict(w._dist_cache)
